@@ -448,18 +448,24 @@ func (ex *Exec) runInstrs(fr *Frame, b *ssa.BasicBlock, start int, st *State, vi
 			if ex.paths > ex.maxPaths {
 				panic(abortAll{"path limit"})
 			}
+			// a branch that keeps forking at the same block (unrolled loop with a symbolic
+			// bound): decide feasibility with the solver so that bounded loops terminate
+			feas := ex.eng.feasible
+			if visits[b] > 3 {
+				feas = ex.eng.feasibleSolver
+			}
 			st1 := st.Clone()
 			st1.AssumeCond(c)
 			fr1 := fr.fork()
 			v1 := copyVisits(visits)
 			v1[nil] = forks
-			if ex.eng.feasible(st1) {
+			if feas(st1) {
 				ex.guard(func() { ex.runBlock(fr1, b.Succs[0], b, st1, v1) })
 			}
 			st2 := st
 			st2.AssumeCond(Not(c))
 			visits[nil] = forks
-			if ex.eng.feasible(st2) {
+			if feas(st2) {
 				ex.runBlock(fr, b.Succs[1], b, st2, visits)
 			}
 			return
